@@ -532,7 +532,8 @@ def install(I: Interp, fs: dict):
     E["xlwt.Workbook"] = lambda I, a, k, n: Obj(kind="XlBook", label="workbook", attrs={"sheets": {}})
 
     def add_sheet(I, wb, a, k, n):
-        sh = Obj(kind="XlSheet", label=f"sheet:{a[0]}", attrs={"cells": {}, "name": a[0]})
+        ow = k.get("cell_overwrite_ok", a[1] if len(a) > 1 else False)
+        sh = Obj(kind="XlSheet", label=f"sheet:{a[0]}", attrs={"cells": {}, "name": a[0], "overwrite_ok": ow is True})
         wb.attrs["sheets"][a[0]] = sh
         return sh
     M[("XlBook", "add_sheet")] = add_sheet
@@ -542,8 +543,14 @@ def install(I: Interp, fs: dict):
         r, c, v = a[0], a[1], (a[2] if len(a) > 2 else "")
         if not (isinstance(r, Num) and r.is_const() and isinstance(c, Num) and c.is_const()):
             I.err(n, "cell position is not a folded constant")
-        sh.attrs["cells"][(int(r.value()), int(c.value()))] = v
-        sh.attrs.setdefault("order", []).append((int(r.value()), int(c.value())))
+        pos = (int(r.value()), int(c.value()))
+        if pos[0] < 0 or pos[1] < 0:
+            raise I.fault("ValueError", n, f"row / column index {pos} not an int in range")
+        if pos in sh.attrs["cells"] and not sh.attrs.get("overwrite_ok"):
+            # xlwt refuses to write a cell twice unless the sheet was added with cell_overwrite_ok=True
+            raise I.fault("Exception", n, f"Attempt to overwrite cell: sheetname={sh.attrs.get('name')!r} rowx={pos[0]} colx={pos[1]}")
+        sh.attrs["cells"][pos] = v
+        sh.attrs.setdefault("order", []).append(pos)
         return None
     M[("XlSheet", "write")] = xl_write
     M[("XlSheet", "col")] = lambda I, sh, a, k, n: Obj(kind="XlCol", attrs={})
